@@ -7,11 +7,13 @@ from harness.gen import single as S
 
 GEN_META = {}       # model name -> (cols, n, fk targets) of the last generated forest (for regen_tables)
 NULL_RATE = [0.0]   # per-forest probability of NULL measure values (set by gen_forest)
-TYPES = {"id": "BIGINT", "k1": "BIGINT", "k2": "BIGINT", "status": "VARCHAR", "region": "VARCHAR", "amount": "BIGINT", "qty": "BIGINT"}
+TYPES = {"created": "TIMESTAMP", "id": "BIGINT", "k1": "BIGINT", "k2": "BIGINT", "status": "VARCHAR", "region": "VARCHAR", "amount": "BIGINT", "qty": "BIGINT"}
 
 
 def mk_model(name, cols, pk, rng, measures_on):
     dims = [{"name": c, "type": "categorical", "sql": rng.choice([None, E.col(c)])} for c in cols if c in ("status", "region", "tier", "sku", "name", "dept")]
+    if "created" in cols:
+        dims.append({"name": "created", "type": "time", "sql": None, "granularity": "day"})
     measures = []
     for c in measures_on:
         for agg in rng.sample(["sum", "count", "avg", "min", "max", "count_distinct"], rng.choice([2, 3])):
@@ -38,6 +40,8 @@ def gen_forest(rng):
                     tgt_n = fk_targets[c]
                     x = rng.random()
                     r.append(None if x < 0.08 else (tgt_n + 5 if x < 0.14 else rng.randint(1, max(1, tgt_n))))
+                elif c == "created":
+                    r.append(None if rng.random() < 0.2 else E.ts(1704067200 + rng.choice([0, 3600, 86400 * 3, 86400 * 31, 86400 * 40, 86400 * 400])))
                 elif c in ("amount", "qty", "credits", "budget", "cost"):
                     r.append(rng.choice([1, 2, 5, 10, 10, 0, -3, 7, 100]) if rng.random() > NULL_RATE[0] else None)
                 else:
@@ -65,10 +69,13 @@ def gen_forest(rng):
                    "customers": ["id", "regions_id", "region", "tier", "amount"], "regions": ["id", "name", "budget"],
                    "shipments": ["id", "orders_id", "status", "cost"]}
         meas = {"items": ["qty", "amount"], "orders": ["amount"], "customers": ["amount"], "regions": ["budget"], "shipments": ["cost"]}
+        with_time = rng.random() < 0.35
         for n in names:
             cols = list(cols_of[n])
             if shape == "star" and n == "orders":
                 cols = ["id", "status", "amount"]
+            if with_time and n == "orders":
+                cols = cols + ["created"]
             if n == names[-1] and shape != "star":
                 cols = [c for c in cols if not c.endswith("_id") or c == "id"]
             ms.append(mk_model(n, cols, ["id"], rng, meas[n]))
@@ -122,6 +129,8 @@ def regen_tables(rng, ms, scale=1):
                 elif c in fkt:
                     x = rng.random()
                     r.append(None if x < 0.05 else rng.randint(1, max(1, fkt[c])))
+                elif c == "created":
+                    r.append(None if rng.random() < 0.2 else E.ts(1704067200 + rng.choice([0, 3600, 86400 * 3, 86400 * 31, 86400 * 40, 86400 * 400])))
                 elif c in ("amount", "qty", "credits", "budget", "cost"):
                     r.append(rng.choice([1, 2, 5, 10, 10, 3, 7, 100]))
                 else:
@@ -132,8 +141,11 @@ def regen_tables(rng, ms, scale=1):
 
 
 def gen_query(rng, ms, single_metric_model=True):
-    dims_pool = [(m["name"], d["name"]) for m in ms for d in m["dims"]]
+    dims_pool = [(m["name"], d["name"]) for m in ms for d in m["dims"] if d["type"] != "time"]
     dims = [f"{a}.{b}" for a, b in rng.sample(dims_pool, min(len(dims_pool), rng.choice([0, 1, 1, 2])))]
+    for m in ms:
+        if any(d["type"] == "time" for d in m["dims"]) and rng.random() < 0.6:
+            dims.append(f"{m['name']}.created" + rng.choice(["__month", "__year", "__day", ""]))
     mm = rng.choice([m for m in ms if len(m["measures"]) > 1] or ms)
     metrics = [f"{mm['name']}.{x['name']}" for x in rng.sample(mm["measures"], rng.choice([1, 2, 3]) if len(mm["measures"]) >= 3 else 1)]
     if not single_metric_model and len(ms) > 1:
@@ -145,6 +157,12 @@ def gen_query(rng, ms, single_metric_model=True):
         dom = ["s1", "s2", "s3"] if b in ("sku", "dept") else ["a", "b", "c"]
         filters.append(rng.choice([E.bin_("eq", E.col(f"{a}.{b}"), E.lit(rng.choice(dom))), E.isnull(E.col(f"{a}.{b}"), neg=True),
                                    E.in_(E.col(f"{a}.{b}"), rng.sample(dom, 2)), E.bin_("ne", E.col(f"{a}.{b}"), E.lit(rng.choice(dom)))]))
+    if rng.random() < 0.25:
+        # a metric-value filter (applied after aggregation) on one of the requested metrics
+        ref = rng.choice(metrics)
+        agg = ref.split(".")[1].split("_")[0]
+        if agg in ("sum", "count", "min", "max", "n"):
+            filters.append(E.bin_(rng.choice(["gt", "ge", "lt"]), E.col(ref), E.lit(rng.choice([0, 1, 5, 10]))))
     if rng.random() < 0.5:
         rng.shuffle(dims)
     return {"metrics": metrics, "dims": dims, "filters": filters, "order_by": [], "limit": None, "offset": None, "ungrouped": False, "aliases": []}
